@@ -16,6 +16,7 @@ import warnings
 import numpy as np
 
 from vlib import core
+from harness import c15_truncate
 
 TOL = 1e-10
 
@@ -519,7 +520,7 @@ def run(ctx, budget_s):
     if ctx.quick:
         res.merge(run_cases(ctx, gen_cases(ctx.sub_rng('decomp'), 400, 250, 350), deadline=deadline))
     else:
-        res.merge(run_parallel(ctx, 'decomp', 32, (600, 300, 500), deadline))
+        res.merge(run_parallel(ctx, 'decomp', c15_truncate.n_chunks(32), (600, 300, 500), deadline))
     return res
 
 
@@ -530,5 +531,5 @@ def search(ctx, budget_s):
     if ctx.quick:
         res.merge(run_cases(ctx, gen_cases(ctx.sub_rng('decomp-search'), 400, 200, 400), deadline=deadline))
     else:
-        res.merge(run_parallel(ctx, 'decomp-search', 32, (400, 200, 400), deadline))
+        res.merge(run_parallel(ctx, 'decomp-search', c15_truncate.n_chunks(32), (400, 200, 400), deadline))
     return res
